@@ -1,4 +1,5 @@
 import TapkeeVerif.Proofs.LandmarksEuclid
+import TapkeeVerif.Proofs.LandmarksCount
 import TapkeeVerif.Proofs.LandmarksRatioOne
 import TapkeeVerif.Proofs.LandmarksWitness
 import TapkeeVerif.Proofs.LandmarksNegEig
@@ -37,6 +38,31 @@ theorem landmarks_distinct_and_counted (perm l : List Nat) (ratio : Rat)
     rw [List.length_take]
     have := three_le_landmarkCount _ _ hN hv
     omega
+
+/-- **The same for the function that is tied to the code.**  `selectLandmarksFl` uses the count the COMPILED expression
+    yields — the integer part of the IEEE `double` product `N * r` (`r` the exact value of the `double` ratio), modelled
+    by `landmarkCountFl N r = ⌊rne53 (N·r)⌋`.  Its landmarks are distinct, in range, a prefix of the shuffle, exactly
+    `landmarkCountFl` many; and that count equals the exact-arithmetic `⌊N·r⌋` unless an integer lies within one unit in
+    the last place `u = 2^(rneExp (N·r))` of the product (the 49 472 values `N ≤ 10⁶` with `r = fl(3/N)` that select 2
+    landmarks are such cases: `N·r` is just below 3). -/
+theorem landmarks_distinct_and_counted_compiled (perm l : List Nat) (r : Rat)
+    (hperm : perm.Perm (List.range perm.length)) (h : selectLandmarksFl perm r = some l) :
+    l.Nodup ∧ l.length = landmarkCountFl perm.length r ∧ (∀ x ∈ l, x < perm.length) ∧ l <+: perm ∧
+      landmarkCountFl perm.length r = (rne53 (((perm.length : Nat) : Rat) * r)).floor.toNat ∧
+      (0 < ((perm.length : Nat) : Rat) * r →
+        (∀ k : Int, ¬ (((perm.length : Nat) : Rat) * r - pow2 (rneExp (((perm.length : Nat) : Rat) * r)) < (k : Rat) ∧
+          (k : Rat) ≤ ((perm.length : Nat) : Rat) * r + pow2 (rneExp (((perm.length : Nat) : Rat) * r)))) →
+        l.length = landmarkCount perm.length r) := by
+  obtain ⟨_, hc, rfl⟩ := selectLandmarksWith_some h
+  have hnd : perm.Nodup := hperm.nodup_iff.mpr List.nodup_range
+  have hlen : (perm.take (landmarkCountFl perm.length r)).length = landmarkCountFl perm.length r := by
+    rw [List.length_take]; omega
+  refine ⟨hnd.sublist (List.take_sublist _ _), hlen, ?_, List.take_prefix _ _, rfl, ?_⟩
+  · intro x hx
+    have : x ∈ perm := List.mem_of_mem_take hx
+    exact List.mem_range.mp (hperm.mem_iff.mp this)
+  · intro hpos hno
+    rw [hlen, landmarkCountFl_eq_landmarkCount _ _ hpos hno]
 
 /-- for every validated ratio the selection is defined (no iterator arithmetic outside the vector) -/
 theorem selectLandmarks_defined (perm : List Nat) (ratio : Rat) (hN : 0 < perm.length)
@@ -117,8 +143,14 @@ theorem triangulate_fixes_landmarks (eps : K) (heps : 0 ≤ eps) (δ : Mat N N K
       exact mul_self_eq_zero.mp this
     simp [ht, hs0]
 
-/-- **Exact recovery** (full statement: affine dimension `≤ d`).  Euclidean input (`IsEuclidean`); the solver's answer
-    is an eigen-system of the landmark matrix that carries all of it (`IsFactored`: `rank ≤ d`; eigenvalues may vanish);
+/-- **Exact recovery** for affine dimension `≤ d`, UNDER THE FACTORISATION CONTRACT of the solver's answer: the rank
+    condition enters as `IsFactored (lmdsB δ lm) V lam` (`B = V diag λ Vᵀ`: the selected eigenpairs carry all of the
+    landmark matrix) and the dichotomy `hdich` — both are statements about `(V, λ)`, not about the data.  For an exact
+    orthonormal TOP-`d` eigen-system of the Gram matrix of data of affine dimension `≤ d` they hold (spectral theorem +
+    dimension count), but that bridge is NOT proved here (the same lemma is missing in C05's `mds_exact_recovery`); the
+    residual/orthonormality contract is checked on the observed values in every run and the distance oracle is run on the
+    implementation independently of it.
+    Euclidean input (`IsEuclidean`); the solver's answer is an eigen-system of the landmark matrix (eigenvalues may vanish);
     `s = sqrt(max(λ, 0))` exactly; every selected eigenvalue is either `0` or above the pseudo-inverse tolerance
     `n_l · ε · max|λ|` (the exact-arithmetic dichotomy; `ε ≥ 0` arbitrary); every sample lies in the affine span of the
     landmarks (`hspan`).  Then Landmark MDS returns an embedding and ALL pairwise squared distances — landmark/landmark,
